@@ -72,6 +72,14 @@ fn http_class(code: &str) -> u16 {
 }
 
 impl BrokerAdapter {
+    /// Shares the sequence counter of the simulated network so that broker calls and network
+    /// messages are totally ordered in one log.
+    pub fn with_seq(svc: Arc<MemBrokerService>, origin: &str, seq: Arc<AtomicU64>) -> Self {
+        let mut a = Self::new(svc, origin);
+        a.seq = seq;
+        a
+    }
+
     pub fn new(svc: Arc<MemBrokerService>, origin: &str) -> Self {
         BrokerAdapter {
             svc,
@@ -93,11 +101,19 @@ impl BrokerAdapter {
         }
     }
 
-    fn decide(&self, name: &str, arg: &str) -> BrokerFaultAction {
-        match self.fault.read().as_ref() {
+    fn decide(&self, name: &'static str, arg: &str) -> BrokerFaultAction {
+        let d = match self.fault.read().as_ref() {
             Some(f) => f.decide(&self.origin, name, arg),
             None => BrokerFaultAction::Deliver,
-        }
+        };
+        // every call leaves a decision record ("@..."); mutating calls add a result record
+        let tag = match d {
+            BrokerFaultAction::Deliver => "@deliver",
+            BrokerFaultAction::FailBefore => "@fault-before",
+            BrokerFaultAction::FailAfter => "@fault-after",
+        };
+        self.record(name, arg.to_string(), tag.to_string());
+        d
     }
 
     fn record(&self, name: &'static str, arg: String, result: String) {
